@@ -431,7 +431,7 @@ def run(chk):
     impl, model = build(chk)
     chk.cov['trusted_base'] += [
         'extraction: ExtrOcamlBasic only, no Extract Constant/Inductive of our own',
-        'ocaml/driver_c03.ml, harness/c03_thunk.c, harness/c03_ifaces.c (drive the API, parse + print)',
+        'ocaml/driver_c03.ml, harness/c03_thunk.c, harness/c03_ifaces.c, harness/c03_patch.c (drive the API, parse + print)',
         'not proved, only run: wrapper/shim/bb-stub machine code (mir-x86_64.c:575-972), the generator '
         '(mir-gen.c), direct-call rewriting (mir-gen-x86_64.c:2970-3063), the interpreter']
     found = False
@@ -471,6 +471,10 @@ def run(chk):
     from checks import c03_argpass
     if c03_argpass.run(chk, model):
         found = True
+    # tie 4 (round 3, wave z): the write-enable request of _MIR_change_code / _MIR_update_code_arr vs coq/C03/CodePatch.v
+    from checks import c03_patch
+    if c03_patch.run(chk, model):
+        found = True
     # differential run over the five interfaces
     try:
         from checks import c03_ifaces
@@ -505,6 +509,9 @@ def replay(chk, path):
         print('history: H %d | %s | %s' % (rp['n'], rp['callees'], ' ; '.join(rp['ops'])))
         print('result:', r or 'agree')
         return 1 if r else 0
+    if rp.get('kind') == 'patch':
+        from checks import c03_patch
+        return c03_patch.replay_case(chk, model, rp)
     if rp.get('kind') == 'argpass':
         from checks import c03_argpass
         return c03_argpass.replay(chk, rp, model)
